@@ -2,6 +2,7 @@ package textwire
 
 import (
 	"strings"
+	"sync/atomic"
 
 	"github.com/textwire/textwire/v2/config"
 	"github.com/textwire/textwire/v2/ctx"
@@ -14,7 +15,7 @@ var userConfig = config.New("templates", ".tw.html", "", false)
 var customFunc = config.NewFunc()
 
 // usesTemplates is a flag to check if user uses Textwire templates or not
-var usesTemplates = false
+var usesTemplates atomic.Bool
 
 func NewTemplate(opt *config.Config) (*Template, error) {
 	Configure(opt)
@@ -34,7 +35,7 @@ func NewTemplate(opt *config.Config) (*Template, error) {
 }
 
 func EvaluateString(inp string, data map[string]any) (string, error) {
-	usesTemplates = false
+	usesTemplates.Store(false)
 
 	prog, errs := parseStr(inp)
 
@@ -60,7 +61,7 @@ func EvaluateString(inp string, data map[string]any) (string, error) {
 }
 
 func EvaluateFile(absPath string, data map[string]any) (string, error) {
-	usesTemplates = false
+	usesTemplates.Store(false)
 
 	content, err := fileContent(absPath)
 	if err != nil {
@@ -126,7 +127,7 @@ func RegisterBoolFunc(name string, fn config.BoolCustomFunc) error {
 }
 
 func Configure(opt *config.Config) {
-	usesTemplates = true
+	usesTemplates.Store(true)
 
 	if opt == nil {
 		return
